@@ -115,6 +115,7 @@ package jlib
 //@   assigns nothing
 //@ func forceArray
 //@   props C15 C09
+//@   requires ifaceable(v)
 //@   ensures !valid(res(v)) ==> !valid(result)
 //@   ensures arrKind(kind(res(v))) ==> result == res(v)
 //@   ensures (valid(res(v)) && !arrKind(kind(res(v)))) ==> (kind(result) == 23 && rvlen(result) == 1)
